@@ -102,11 +102,11 @@ func tampers(genuineLen int, L, k int, thorough bool, bitStride int) []tamper {
 }
 
 type scenario struct {
-	hf      hashFn
-	kind    string // ads (real signed ads, strict selector) or map (generic chain, non-strict selector)
-	L       int
-	seg     int64
-	k       int // tampered block index
+	hf   hashFn
+	kind string // ads (real signed ads, strict selector) or map (generic chain, non-strict selector)
+	L    int
+	seg  int64
+	k    int // tampered block index
 }
 
 func firstLine(s string) string {
@@ -149,6 +149,15 @@ func TestCheck(t *testing.T) {
 			}
 		}
 	}
+	// block sizes at and just above powers of two (where read buffers and size
+	// limits live), up to 4 MiB: untouched, with appended bytes, substituted, empty
+	for _, k2 := range []uint{12, 15, 16, 20, 22} {
+		for _, d := range []int{0, 1} {
+			for k := 0; k < 2; k++ {
+				scs = append(scs, scenario{fns[0], fmt.Sprintf("map@%d", (1<<k2)+d), 2, -1, k})
+			}
+		}
+	}
 	for _, sc := range scs {
 		runScenario(t, r, sc, thorough)
 		if r.OverBudget() {
@@ -175,6 +184,11 @@ func build(sc scenario) *built {
 	var opts []dagsync.Option
 	if sc.kind == "ads" {
 		ch = syncfx.BuildAdChain(p.Src, id, sc.L, lp, "c02")
+	} else if strings.HasPrefix(sc.kind, "map@") {
+		var size int
+		fmt.Sscanf(sc.kind, "map@%d", &size)
+		ch = syncfx.BuildPaddedMapChain(p.Src, sc.L, lp, "c02", size)
+		opts = append(opts, dagsync.StrictAdsSelector(false))
 	} else {
 		ch = syncfx.BuildMapChain(p.Src, sc.L, lp, "c02")
 		opts = append(opts, dagsync.StrictAdsSelector(false))
@@ -208,7 +222,20 @@ func runScenario(t *testing.T, r *vp.Recorder, sc scenario, thorough bool) {
 		stride = 3
 	}
 	scKey := fmt.Sprintf("%s|%s|L%d|seg%d|k%d", sc.hf.name, sc.kind, sc.L, sc.seg, sc.k)
-	for _, tm := range tampers(glen, sc.L, sc.k, thorough, stride) {
+	var tms []tamper
+	if !strings.HasPrefix(sc.kind, "map@") {
+		tms = tampers(glen, sc.L, sc.k, thorough, stride)
+	} else {
+		// large blocks: the untouched body (must be accepted), appended bytes,
+		// substitution, empty (no per-bit and per-length families)
+		tms = []tamper{{"genuine", "genuine-body", func(g []byte, _ [][]byte) *syncfx.Fault { return bodyFault("genuine", append([]byte(nil), g...)) }}}
+		for _, tm := range tampers(0, sc.L, sc.k, true, 1) {
+			if tm.class == "appended-bytes" || tm.class == "substituted-valid-block" || tm.class == "empty-body" {
+				tms = append(tms, tm)
+			}
+		}
+	}
+	for _, tm := range tms {
 		key := "tamper|" + scKey + "|" + tm.label
 		if !r.Mine(key) {
 			continue
@@ -259,6 +286,10 @@ func oneRun(r *vp.Recorder, key string, sc scenario, tm tamper) {
 		return
 	}
 	tamperedIsGenuine := fault.Kind == "body" && bytes.Equal(tamperedBody, genuine)
+	if tamperedIsGenuine && tm.class == "genuine-body" && (err != nil || !ret.Equals(ch.Head())) {
+		r.Violation("sync-failed-with-genuine-blocks:"+cls, key, fmt.Sprintf("every block was served untouched (block %d has %d bytes) but the sync returned %s, %v", sc.k, len(genuine), ret, err), nil)
+		return
+	}
 	if !tamperedIsGenuine {
 		// the tampered block was needed: the sync must fail and record nothing
 		if err == nil {
